@@ -27,6 +27,10 @@ def _attr_names(node: ast.AST, base: str) -> set[str]:
             if isinstance(n, ast.Attribute) and isinstance(n.value, ast.Name) and n.value.id == base}
 
 
+def b_(x) -> str:
+    return "true" if x else "false"
+
+
 def translate(repo: Path) -> dict:
     import stat as pystat
     tree = T.module_ast(repo / "dulwich" / "index.py")
@@ -75,6 +79,45 @@ def translate(repo: Path) -> dict:
     # ns precision: both sides must be compared in nanoseconds for the model's single Nat per time stamp
     if cmp_mtime and "st_mtime_ns" not in st_attrs:
         raise T.TranslateError("_stat_matches_entry no longer compares st_mtime_ns")
+
+    # --- _stat_matches_entry, probed: the function's own source (annotations stripped) is evaluated on a grid of
+    # (seconds, nanoseconds) pairs, including index entries whose nanoseconds are 0; the table goes to Gen and a
+    # theorem says the model's exact comparison reproduces every row
+    import copy
+    import types
+    fn = copy.deepcopy(sm)
+    for a in fn.args.args + fn.args.kwonlyargs:
+        a.annotation = None
+    fn.returns = None
+    fn.decorator_list = []
+    ns_: dict = {}
+    try:
+        exec(compile(ast.fix_missing_locations(ast.Module(body=[fn], type_ignores=[])), "<_stat_matches_entry>", "exec"), ns_)
+    except Exception as e:  # noqa: BLE001
+        raise T.TranslateError(f"_stat_matches_entry: cannot evaluate the source: {e}")
+    probe_fn = ns_["_stat_matches_entry"]
+    G = 10 ** 9
+    times = [(100, 0), (100, 7), (100, G - 1), (101, 0), (101, 7), (99, G - 1)]
+    rows = []
+
+    def probe(trust, sc, smt, ssz, ec, em, esz):
+        st_ = types.SimpleNamespace(st_ctime_ns=sc[0] * G + sc[1], st_mtime_ns=smt[0] * G + smt[1], st_size=ssz,
+                                    st_ctime=sc[0] + sc[1] / G, st_mtime=smt[0] + smt[1] / G)
+        en = types.SimpleNamespace(ctime=ec, mtime=em, size=esz)
+        try:
+            r = bool(probe_fn(st_, en, trust))
+        except Exception as e:  # noqa: BLE001
+            raise T.TranslateError(f"_stat_matches_entry raised on a probe: {e}")
+        rows.append((trust, sc[0] * G + sc[1], smt[0] * G + smt[1], ssz, ec[0] * G + ec[1], em[0] * G + em[1], esz, r))
+    for a in times:
+        for e_ in times:
+            probe(True, (100, 7), a, 4, (100, 7), e_, 4)
+            for trust in (True, False):
+                probe(trust, a, (100, 7), 4, e_, (100, 7), 4)
+    for trust in (True, False):
+        probe(trust, (100, 0), (100, 0), 4, (100, 0), (100, 0), 5)
+        probe(trust, (100, 0), (100, 0), 0, (100, 0), (100, 0), 0)
+    probes_lean = ",\n  ".join(f"({b_(r[0])}, {r[1]}, {r[2]}, {r[3]}, {r[4]}, {r[5]}, {r[6]}, {b_(r[7])})" for r in rows)
 
     # --- _check_entry_for_changes: what of the index entry is compared with the file
     ce = T.find_def(tree, "_check_entry_for_changes")
@@ -198,6 +241,11 @@ def statCmpCtime : Bool := {b(cmp_ctime)}
 def statCmpMtime : Bool := {b(cmp_mtime)}
 def statCmpSize : Bool := {b(cmp_size)}
 def trustCtimeDefault : Bool := {b(trust_default)}
+/-- `_stat_matches_entry` evaluated (from its source) on a grid of time stamps given as (seconds, nanoseconds),
+index entries with 0 nanoseconds included: (trust_ctime, st ctime, st mtime, st size, entry ctime, entry mtime,
+entry size, result), times as `seconds * 10^9 + nanoseconds` -/
+def statProbes : List (Bool × Nat × Nat × Nat × Nat × Nat × Nat × Bool) := [
+  {probes_lean}]
 /-- `_check_entry_for_changes`: the index entry fields compared with the file once the short-cut fails -/
 def unstagedCmpSha : Bool := {b(un_sha)}
 def unstagedCmpMode : Bool := {b(un_mode)}
@@ -363,8 +411,9 @@ def git_env(home: Path):
 class Scen:
     _n = 0
 
-    def __init__(self, ctx, stream: str, label: str = ""):
+    def __init__(self, ctx, stream: str, label: str = "", commit_time: int = COMMIT_TIME):
         Scen._n += 1
+        self.commit_time = commit_time
         self.ctx, self.stream, self.label = ctx, stream, label
         self.root = ctx.scratch / f"s{Scen._n}"
         if self.root.exists():
@@ -510,19 +559,31 @@ class Scen:
         t = [p for p in wd if p not in idx]
         return StatusView(a, d, m, u, t)
 
-    def real_status(self) -> StatusView:
+    def collapse_untracked(self, exp: StatusView) -> StatusView:
+        """the three-way comparison in git's default "normal" mode: an untracked file is reported as the shallowest
+        of its leading directories below which nothing is tracked (with a trailing slash), else by name."""
+        idx = list(self.read_index())
+
+        def col(u: bytes) -> bytes:
+            for a in ancestors(u):
+                if not any(k.startswith(a + b"/") for k in idx):
+                    return a + b"/"
+            return u
+        return StatusView(exp.a, exp.d, exp.m, exp.u, {col(u) for u in exp.t})
+
+    def real_status(self, mode: str = "all") -> StatusView:
         from dulwich import porcelain
         try:
-            st = porcelain.status(self.repo, untracked_files="all")
+            st = porcelain.status(self.repo, untracked_files=mode)
         except Exception as e:  # noqa: BLE001 - every exception is an observation
             return StatusView(err=type(e).__name__)
         lists = [st.staged["add"], st.staged["delete"], st.staged["modify"], st.unstaged, st.untracked]
         dups = any(len(set(x)) != len(x) for x in lists)
         return StatusView(*lists, dups=dups)
 
-    def git_status(self) -> StatusView:
+    def git_status(self, mode: str = "all") -> StatusView:
         p = subprocess.run(["git", "-c", "core.quotepath=off", "status", "--porcelain=v1", "-z",
-                            "--untracked-files=all", "--no-renames"], cwd=str(self.root), env=git_env(self.home),
+                            f"--untracked-files={mode}", "--no-renames"], cwd=str(self.root), env=git_env(self.home),
                            stdout=subprocess.PIPE, stderr=subprocess.PIPE)
         if p.returncode != 0:
             return StatusView(err="git:" + p.stderr.decode(errors="replace")[:200])
@@ -630,7 +691,7 @@ class Scen:
         c.tree = tid
         c.parents = []
         c.author = c.committer = b"verif <verif@example.com>"
-        c.author_time = c.commit_time = COMMIT_TIME
+        c.author_time = c.commit_time = self.commit_time
         c.author_timezone = c.commit_timezone = 0
         c.message = b"tree " + s["name"].encode()
         self.repo.object_store.add_object(c)
@@ -912,6 +973,27 @@ class Scen:
             if g != exp:
                 self.ctx.oracle_fail(self.stream, self.case(expected=exp.show(), git=g.show()),
                                      "git status disagrees with the three-way comparison of HEAD, index and directory", "oracle:git-vs-three-way")
+        # the same in "normal" mode (the default of porcelain.status and of git): only the untracked list differs
+        exp_n, real_n = self.collapse_untracked(exp), self.real_status("normal")
+        self.tok("statusn", lambda o, real_n=real_n: self.cmp("status-normal", str(parse_model_status(o).show()), str(real_n.show())))
+        self.ctx.count(self.stream + ".status-normal", (self.label, len(self.script)), True,
+                       "err" if real_n.err else ("dirs" if any(p.endswith(b"/") for p in exp_n.t) else ("files" if exp_n.t else "none")))
+        if real_n.err != real.err:
+            self.ctx.oracle_fail(self.stream, self.case(expected=exp_n.show(), real=real_n.show()),
+                                 f"status(untracked_files='normal') raises {real_n.err}, 'all' gives {real.err}")
+        elif not real_n.err and exp.t == real.t:
+            for p in exp_n.t - real_n.t:
+                self.ctx.oracle_fail(self.stream, self.case(expected=exp_n.show(), real=real_n.show()), f"untracked (normal mode) misses {p!r}")
+            for p in real_n.t - exp_n.t:
+                self.ctx.oracle_fail(self.stream, self.case(expected=exp_n.show(), real=real_n.show()), f"untracked (normal mode) lists {p!r}")
+            if (real_n.a, real_n.d, real_n.m, real_n.u) != (real.a, real.d, real.m, real.u):
+                self.ctx.oracle_fail(self.stream, self.case(real=real_n.show()), "staged / unstaged lists depend on the untracked mode")
+        if s.get("git"):
+            g = self.git_status("normal")
+            self.ctx.count(self.stream + ".git-status-normal", (self.label, len(self.script)), True)
+            if g != exp_n:
+                self.ctx.oracle_fail(self.stream, self.case(expected=exp_n.show(), git=g.show()),
+                                     "git status (normal mode) disagrees with the three-way comparison", "oracle:git-vs-three-way")
         if s.get("expect_clean") and not exp.clean():
             self.ctx.oracle_fail(self.stream, self.case(expected=exp.show()), "status is not clean right after checkout (three-way comparison)")
         return exp, real
@@ -919,7 +1001,7 @@ class Scen:
     # -- model side
     def finish(self, lines: list, owners: list):
         sizes = ",".join(f"{c}={z}" for c, z in self.reg.size.items()) or "."
-        self.toks[self.env_tok_at] = f"env:{COMMIT_TIME}:{sizes}"
+        self.toks[self.env_tok_at] = f"env:{self.commit_time}:{sizes}"
         lines.append("c18.run " + " ".join(self.toks))
         owners.append(self)
 
@@ -1009,6 +1091,34 @@ def gen_link_target(rng, profile, path: bytes, files: list, dirs: list) -> bytes
     return b"/nonexistent-c18/target"
 
 
+# a directory `d` next to names that are `d` followed by a byte around "/" (0x2f): they sort between `d` and `d/…`
+# (below 0x2f) or right after everything under `d/` (above)
+SIBLING_SUFFIXES = [b".x", b"-x", b" x", b"0", b".rs", b"-old", b"!", b"\x01", b".", b"-", b"+", b",", b"0x", b"\xff"]
+
+
+def add_prefix_family(rng, paths: list, profile: str) -> None:
+    """make sure some directory of the tree has siblings whose names extend its name by a byte around '/'."""
+    dirs = sorted({a for p in paths for a in ancestors(p)})
+    for _ in range(rng.choice([1, 1, 2])):
+        if dirs and rng.random() < 0.6:
+            d = rng.choice(dirs)
+        else:
+            d = b"/".join([gen_name(rng, "plain") for _ in range(rng.choice([1, 1, 2]))])
+            q = d + b"/" + gen_name(rng, "plain")
+            if conflicts(d, paths) or conflicts(q, paths):
+                continue
+            paths.append(q)
+        for suf in rng.sample(SIBLING_SUFFIXES, rng.choice([1, 2, 3])):
+            sib = d + suf
+            if profile == "plain" and not is_utf8(sib):
+                continue
+            q = sib if rng.random() < 0.5 else sib + b"/" + gen_name(rng, "plain")
+            if rng.random() < 0.2:
+                q = sib + b"/" + gen_name(rng, "plain") + b"/" + gen_name(rng, "plain")
+            if len(q) < 900 and not conflicts(q, paths):
+                paths.append(q)
+
+
 def gen_tree(rng, profile, n=None, big_ok=False) -> list:
     """[[pathhex, kind, contentspec]] over valid names, nested up to depth 3, no path below another."""
     if n is None:
@@ -1029,6 +1139,8 @@ def gen_tree(rng, profile, n=None, big_ok=False) -> list:
         if len(p) > 900 or conflicts(p, paths):
             continue
         paths.append(p)
+    if n and rng.random() < 0.6:
+        add_prefix_family(rng, paths, profile)
     dirs = sorted({a for p in paths for a in ancestors(p)})
     kinds = {p: rng.choices(["r", "x", "l"], [60, 15, 25])[0] for p in paths}
     files = [q for q in paths if kinds[q] != "l"]        # links never point at links: no symlink loops
@@ -1046,8 +1158,15 @@ def mutate_tree(rng, profile, ents: list) -> list:
     """a second tree close to the first: content / mode / type changes, deletions, additions, file<->directory swaps."""
     cur = {unhx(ph): (k, spec) for ph, k, spec in ents}
     for _ in range(rng.randint(1, 5)):
-        op = rng.choice(["content", "mode", "type", "delete", "add", "file->dir", "dir->file", "dir->file"])
+        op = rng.choice(["content", "mode", "type", "delete", "add", "file->dir", "dir->file", "dir->file", "sibling", "sibling"])
         paths = list(cur)
+        if op == "sibling":
+            ps = list(cur)
+            add_prefix_family(rng, ps, profile)
+            for q in ps:
+                if q not in cur:
+                    cur[q] = (rng.choice(["r", "x"]), gen_content(rng))
+            continue
         if op == "add" or not paths:
             for _ in range(10):
                 p = b"/".join(gen_name(rng, profile) for _ in range(rng.choice([1, 1, 2])))
@@ -1230,7 +1349,7 @@ def _pick_edit(rng, sc: Scen, profile):
     links = [p for p in files if snap[p]["kind"] == "l"]
     dirs = sorted({a for p in files for a in ancestors(p)})
     kinds = ["modify-same", "modify-diff", "chmod", "delete", "add", "add", "file->link", "link->file", "file->dir",
-             "dir->file", "revert", "stage", "stage", "unstage", "rmc", "addall", "mkdir-empty"]
+             "dir->file", "revert", "stage", "stage", "unstage", "rmc", "addall", "mkdir-empty", "add-sibling", "add-sibling"]
     for _ in range(30):
         k = rng.choice(kinds)
         if k == "modify-same" and regs:
@@ -1269,6 +1388,21 @@ def _pick_edit(rng, sc: Scen, profile):
             if kk == "l":
                 return {"op": "symlink", "path": hx(p), "target": hx(gen_link_target(rng, profile, p, regs, dirs)), "tag": "add-untracked-link"}
             return {"op": "write", "path": hx(p), "kind": kk, "content": gen_content(rng), "tag": "add-untracked"}
+        if k == "add-sibling":
+            alld = sorted(set(dirs) | {a for p in idx for a in ancestors(p)})
+            if not alld:
+                continue
+            d = rng.choice(alld)
+            r_ = rng.random()
+            if r_ < 0.35:
+                p = d + b"/" + gen_name(rng, "plain")                       # untracked file inside the directory
+            elif r_ < 0.7:
+                p = d + rng.choice(SIBLING_SUFFIXES)                          # sibling file
+            else:
+                p = d + rng.choice(SIBLING_SUFFIXES) + b"/" + gen_name(rng, "plain")   # file inside a sibling directory
+            if len(p) > 900 or conflicts(p, files) or p.split(b"/")[0] == b".git" or (profile == "plain" and not is_utf8(p)):
+                continue
+            return {"op": "write", "path": hx(p), "kind": "r", "content": gen_content(rng), "tag": "add-sibling"}
         if k == "file->link" and regs:
             p = rng.choice(regs)
             old = open(sc.full(p), "rb").read()
@@ -1383,6 +1517,8 @@ SWITCH_SET = {
     "E": [],
     "O": [[hx(b"y"), "r", {"hex": hx(b"other")}], [hx(b"x.a"), "r", {"hex": hx(b"sibling")}], [hx(b"x0"), "r", {"hex": "-"}]],
     "M": [["78", "r", {"hex": hx(b"file")}], [hx(b"x.a"), "r", {"hex": hx(b"sibling2")}], [hx(b"k/\xff"), "x", {"hex": hx(b"nonutf8")}]],
+    "P": [[hx(b"x/a.c"), "r", {"hex": hx(b"file")}], [hx(b"x.rs"), "r", {"hex": hx(b"rs")}], [hx(b"x-old/y"), "r", {"hex": hx(b"old")}],
+          [hx(b"x y"), "x", {"hex": hx(b"sp")}], [hx(b"x0/z/w"), "r", {"hex": hx(b"zero")}]],
 }
 
 
